@@ -219,6 +219,8 @@ def corpus():
         # D06: two agents, reader's plain read must happen-before the reclaiming callback / barrier return
         ("corpus-d06-cb", ["cfg 3 3 stress", "on 1", "on 2"] + ["rd 1", "qs 1", "rd 2", "qs 2", "ab 0 0", "run 0", "run 0", "run 0"] * 150),
         ("corpus-d06-qb", ["cfg 3 3 stress"] + ["on 0", "on 1", "on 2"] + ["rd 1", "qs 1", "rd 2", "qs 2", "qr 0 0", "rd 0"] * 150),
+        # D06b: offline() as the last acker published the period without acquiring the other agents' acks
+        ("corpus-d06b", ["cfg 3 3 stress", "on 1", "on 2"] + ["rd 1", "qs 1", "rd 2", "qs 2", "off 2", "on 2", "ab 0 0", "run 0", "run 0"] * 250),
         # deferred period restarted by the deferring agent; second agent joins while a barrier is pending
         ("corpus-deferred-restart", ["cfg 2 2", "on 0", "qs 0", "ab 0 0", "on 1", "qs 0", "qs 1", "qs 0", "qs 1", "qs 0", "run 0", "expect_drained"]),
         # agent leaves as last acker while a barrier is pending
